@@ -127,6 +127,10 @@ type combo struct {
 	// somewhere and re-uses; the field is managed by the library, its presence on
 	// input says nothing about the other fields)
 	StaleKeyId bool `json:"wrapping_key_id_preset_on_input,omitempty"`
+	// Sparse: the record lacks one of the sensitive values (a node record without
+	// server encryption key, credentials without encryption key, a root without
+	// private key): nothing to seal there, everything else as usual
+	Sparse bool `json:"a_sensitive_value_is_absent,omitempty"`
 }
 
 func bundles() []*types.CertificateBundle {
@@ -310,10 +314,27 @@ func checkCombo(t vkit.TB, c combo) bool {
 			m.WrappingKeyId = "some-earlier-key"
 		}
 	}
+	if c.Sparse {
+		switch m := orig.(type) {
+		case *types.NodeCredentials:
+			m.EncryptionPrivateKeyBytes = nil
+		case *types.NodeInformation:
+			m.ServerEncryptionPrivateKeyBytes = nil
+		case *types.RootCertificates:
+			m.Next.PrivateKeyPkcs8 = nil
+		case *types.ServerLedActivationToken:
+			return true // a token always has a creation time
+		}
+	}
 	before := proto.Clone(orig)
-	nontrivial := c.Nonce || c.Prev || c.State || c.Bundles || c.OptState || c.StaleKeyId
+	nontrivial := c.Nonce || c.Prev || c.State || c.Bundles || c.OptState || c.StaleKeyId || c.Sparse
 	rec.Case("direct/"+c.Type, fmt.Sprintf("%+v", c), nontrivial, func() any { return c })
 	if err := store(st, nodeenrollment.WithStorageWrapper(wa)); err != nil {
+		if c.Sparse {
+			// the library refuses to store a record without that value: nothing to learn
+			rec.Count("sparse_records_refused_by_store", 1)
+			return true
+		}
 		vkit.Violate(t, prop, "C12/store-failed/"+c.Type, err.Error(), c)
 		return false
 	}
@@ -353,7 +374,11 @@ func checkCombo(t vkit.TB, c combo) bool {
 		vkit.Violate(t, prop, "C12/roundtrip-differs/"+c.Type, "loading with the same wrapper did not return what was stored", c)
 		return false
 	}
-	// no wrapper / other wrapper: must fail
+	// no wrapper / other wrapper: must fail (a record in which nothing was left to
+	// seal has nothing to withhold: not judged)
+	if c.Sparse && c.Type == "NodeInformation" {
+		return true
+	}
 	if _, err := load(st); err == nil {
 		vkit.Violate(t, prop, "C12/load-without-wrapper-succeeded/"+c.Type, "a sealed record loaded without a wrapper", c)
 		return false
@@ -414,6 +439,10 @@ func TestEnum_FieldCombinations(t *testing.T) {
 			return
 		}
 		c.StaleKeyId = true
+		if !checkCombo(t, c) {
+			return
+		}
+		c.StaleKeyId, c.Sparse = false, true
 		if !checkCombo(t, c) {
 			return
 		}
